@@ -137,6 +137,14 @@ Section Doc.
     - intros H. right. now apply in_map.
   Qed.
 
+  (* every name (component or alias, through any chain) of one component response satisfies the same interfaces *)
+  Lemma alias_names_equivalent op n n' c : In op (rd_ops d) -> resolves d n = Some c -> resolves d n' = Some c ->
+    implements d (comp_type n) (ro_name op) = implements d (comp_type n') (ro_name op).
+  Proof.
+    intros Hop Hn Hn'. apply Bool.eq_iff_eq_true.
+    rewrite (implements_comp op n c Hop Hn), (implements_comp op n' c Hop Hn'). reflexivity.
+  Qed.
+
   Lemma inline_decl_in op st j : In op (rd_ops d) -> In (st, RInline j) (ro_responses op) ->
     In {| t_name := inline_name (ro_name op) st j; t_alias_of := None; t_methods := [S_ "Write"; write_m (ro_name op)] |} ts.
   Proof.
